@@ -1031,7 +1031,7 @@ func runLoop(a Args) *Result {
 		if toks[2] != "match=1" {
 			res.Mismatch = capViol(res.Mismatch, Violation{Property: prop, Clause: "trace", Signature: "loop-trace",
 				What: "the closed-loop history of the real coordinator and sidecars is not a run of Loop.step: " + toks[2], Case: full, Line: lines[i]}, 3)
-			continue
+			// the property monitors below only use what the real components reported and did
 		}
 		flags := []string{}
 		if len(toks) >= 6 && toks[5] != "" {
